@@ -1,6 +1,6 @@
 """registry entry of C11 (see vlib/registry.py)"""
 PROP = {'level': 'proof',
- 'claim': 'Proof (18 theorems, all closures as functions call-number x argument -> '
+ 'claim': 'Proof (19 theorems, all closures as functions call-number x argument -> '
           'value|break|continue|return|panic, all lengths, all builder histories): the emitted loops of '
           'array::map!/from_fn! (by reference) and map_!/from_fn_! (ArrayConsumer+ArrayBuilder) equal '
           '<[T;N]>::map / core::array::from_fn for well-behaved closures; for ANY closure assume_init / '
@@ -8,7 +8,9 @@ PROP = {'level': 'proof',
           'unreachable), and the first early exit gives panic / divergence / return-from-caller, never an '
           "array; collect_const!'s length pass and fill pass agree and even with disagreeing passes the "
           'length==CAP assert excludes an unwritten slot; ArrayBuilder refines a bounded vector for every '
-          'push/clone/build/drop history (the model is generic in the element type; zero-sized element types '
+          'push/clone/clone_from/build/drop history, clone_from between two builders of any fill levels '
+          'leaves the target an exact clone of the source and drops exactly the old target elements '
+          '(the model is generic in the element type; zero-sized element types '
           'are exercised through the same model with count observations). That break/continue/return/panic '
           'have their Rust meaning inside the expansion is observed (generated programs), not proved.',
  'sources': [('harness', 'c11'), ('programs', 'c11')],
@@ -25,7 +27,13 @@ PROP = {'level': 'proof',
          'moved tokens, lengths); map_!/from_fn_! with a zero-sized output token and every early exit at '
          'every index inside a fn, map!/from_fn! with the exits that cannot spin, and map_!/from_fn_! '
          'producing [(); N] as const initialisers (lengths 1,3); builder histories containing a clone whose '
-         'element Clone panics on its j-th call (depth 4 / 5).',
+         'element Clone panics on its j-th call (depth 4 / 5). Clone::clone_from between TWO builders '
+         '(cur.clone_from(&t) and t.clone_from(&cur), t a second builder with m = 0..=N pushed values): every '
+         'history over {push, the 2(N+1) clone_from forms} up to depth 3 (quick) / 4 (thorough) also mixed '
+         'with plain clones, every (i pushes, clone_from with m = 0..=N+1, j pushes, build|drop) for '
+         'capacities 0..=4 (selection on 6), with drop-logging and zero-sized elements and together with '
+         'panicking-Clone clones; after each clone_from len / is_full / as_slice of the target and as_slice '
+         'of the source; oracle: Vec with `a = b.clone()` (the documented meaning of clone_from).',
  'explanation': 'Theorems (Props/C11.lean) are about the Lean model of the emitted loops; the transcripts '
                 'tie the model to the code (real macros expanded by rustc, real ArrayBuilder) and the std '
                 'reference to real std.',
